@@ -196,6 +196,32 @@ func c19f(c *Ctx) {
 			nStores++
 			why := allowed(st.Val, 0)
 			c.Check(why == "", fmt.Sprintf("literal/%s#%d", fn.Name(), nStores), c.W.Pos(st.Pos()), "Literal is made of source text and constants", "a token Literal in "+fn.Name()+" is not made of source text: "+why)
+			// constant text spliced in front of what was read stands for characters that were
+			// consumed: each of them was tested to be exactly that character (`"0x" + hex digits`
+			// after `ch == '0'` and `peekChar() == 'x'` — not after `'x' or 'X'`)
+			if bo, isCat := st.Val.(*ssa.BinOp); isCat && bo.Op == token.ADD {
+				if pre, isC := strConst(bo.X); isC && len(pre) > 0 && len(pre) <= 2 {
+					must := c.mustLits(fn, st.Block())
+					var missing []string
+					for i := 0; i < len(pre); i++ {
+						want := fmt.Sprintf(" == %d)", pre[i])
+						found := false
+						for _, l := range must {
+							l2 := verRe.ReplaceAllString(l, "")
+							if !strings.HasPrefix(l2, "+(") || !strings.HasSuffix(l2, want) {
+								continue
+							}
+							if (i == 0 && strings.HasPrefix(l2, "+($0.ch")) || (i == 1 && strings.Contains(l2, "peekChar(")) {
+								found = true
+							}
+						}
+						if !found {
+							missing = append(missing, string(pre[i]))
+						}
+					}
+					c.Check(len(missing) == 0, fmt.Sprintf("literal/%s#%d/constant-prefix-was-read", fn.Name(), nStores), c.W.Pos(st.Pos()), "the constant prefix "+pre+" spells characters that were tested to be exactly those", fmt.Sprintf("the literal starts with the constant %q, but the characters consumed are not known to be exactly %v at this point: the token would be spelled differently from the source (0X… turned into 0x…)", pre, missing))
+				}
+			}
 		})
 	}
 	// (3) no home-made transformation either: the lexer never takes a text apart into bytes or
